@@ -83,6 +83,9 @@ pub fn install_panic_hook() {
                 .map(|l| format!("{}:{}", l.file(), l.line()))
                 .unwrap_or_default();
             PANIC_MSG.with(|p| *p.borrow_mut() = Some(format!("{msg} @ {loc}")));
+            if std::env::var("VERIF_BACKTRACE").is_ok() {
+                eprintln!("panic: {msg} @ {loc}\n{}", std::backtrace::Backtrace::force_capture());
+            }
             if !QUIET.with(|q| q.get()) || !crate::in_run() {
                 default(info);
             }
